@@ -137,7 +137,7 @@ class PropagateDriver:
         us0 = unit(np.cross(em, [0, 0, 1]))
         if not np.any(us0):
             us0 = unit(us)                           # vertical ray: any horizontal direction; take the one the code reports
-            if abs(us0[2]) > 1e-12:
+            if not (abs(us0[2]) <= 1e-12):
                 raise Divergence(where + ': s direction of a vertical ray', 'horizontal', list(us0))
         elif not np.allclose(us0, us, rtol=0, atol=1e-9):
             raise Divergence(where + ': s direction', list(us0), list(np.asarray(us, dtype=float)))
@@ -147,7 +147,7 @@ class PropagateDriver:
         for i in range(2):
             if exact:
                 want0 = oracle(BASIS[i], dt, path.attenuation, 1.0)
-                if float(np.max(np.abs(B0[i] - want0))) > tol:
+                if not (float(np.max(np.abs(B0[i] - want0))) <= tol):
                     k = int(np.argmax(np.abs(B0[i] - want0)))
                     raise Divergence(where + ': propagate(s%d) without polarization vs attenuation(|f|) applied to the zero-padded '
                                      'spectrum, sample %d' % (i + 1, k), float(want0[k]), float(B0[i][k]))
@@ -160,7 +160,7 @@ class PropagateDriver:
                         want = proj * float(np.real(r)) * B0[i]
                     else:
                         continue
-                    if float(np.max(np.abs(B[i][j] - want))) > tol:
+                    if not (float(np.max(np.abs(B[i][j] - want))) <= tol):
                         k = int(np.argmax(np.abs(B[i][j] - want)))
                         raise Divergence('%s: %s output of propagate(s%d, e%d) vs (e . u_%s at launch) x Fresnel x attenuation, sample %d' % (
                             where, nm, i + 1, j + 1, nm, k), float(want[k]), float(B[i][j][k]))
@@ -199,7 +199,7 @@ class PropagateDriver:
         vals = {'|u_s|': (np.linalg.norm(us), 1.0), '|u_p|': (np.linalg.norm(up), 1.0), 'u_s . u_p': (float(np.dot(us, up)), 0.0),
                 'u_s . received_direction': (float(np.dot(us, rd)), 0.0), 'u_p . received_direction': (float(np.dot(up, rd)), 0.0)}
         for nm, (got, want) in vals.items():
-            if abs(got - want) > 1e-9:
+            if not (abs(got - want) <= 1e-9):
                 raise Divergence('%s: polarization vectors (%s, %s): %s' % (where, list(us), list(up), nm), want, got)
 
     def step(self, label, st):
